@@ -367,7 +367,8 @@ void run(Src &src, Case &c)
     const std::string shape = std::string(f.importerChildren ? "|importer-children-below-import-element" : "") + (f.importerChildrenUseImportedUnits ? "|importer-children-use-imported-units" : "")
                               + (f.chainGap ? "|chain-element-without-placeholder" : "") + (f.libraryAliasNamedLikeOtherUnits ? "|units-renamed-in-sequence" : "")
                               + (f.unitsDependencyIsImport ? "|library-units-dependency-is-an-import" : "") + (f.libraryImportElementWithPlaceholders ? "|library-import-element-with-placeholder-variables" : "")
-                              + (f.unitsDependencyKnownElsewhere ? "|units-dependency-defined-elsewhere-under-another-name" : "");
+                              + (f.unitsDependencyKnownElsewhere ? "|units-dependency-defined-elsewhere-under-another-name" : "")
+                              + (f.importedUnitsNamedLikeLibraryUnits ? "|imported-units-named-like-other-units-of-their-library" : "");
     // ---- the same calls in a child first
     {
         std::string diag;
@@ -412,10 +413,14 @@ void run(Src &src, Case &c)
         }
         inputsValid = false;
         inputIssues += name + ":\n" + dumpIssues(validator);
+        // (the validator also descends into the library models of resolved imports, so the units may be imported anywhere)
         bool hasImportedUnits = false;
-        for (size_t i = 0; i < model->unitsCount(); ++i) {
-            hasImportedUnits = hasImportedUnits || model->units(i)->isImport();
+        for (const auto &fm : f.models) {
+            for (const auto &fu : fm.spec.units) {
+                hasImportedUnits = hasImportedUnits || fu.import >= 0;
+            }
         }
+        (void)model;
         for (size_t i = 0; i < validator->errorCount(); ++i) {
             std::string d = validator->error(i)->description();
             if (d.find("contains multiple imported units from") != std::string::npos) {
